@@ -115,9 +115,12 @@ immutable BackoffRequestRetrier.Client, BackoffRequestRetrier.maxRetries, Backof
 // (whatever the failure was: the selection never returns a dead endpoint, so this is what
 // makes the loop move on - a necessary condition for a read to end within one pass over
 // the endpoints; the count of live endpoints as a decreasing measure is not formalised)
+// (deployment precondition of the read path: the client was built by its constructor, which
+// installs a topology, and the topology is only changed through topology.Update)
+define ClientOK(c) = c.topology != nil && TopoInv(c.topology)
 func HTTPClient.callAny
   props C20
-  requires c.topology != nil && TopoInv(c.topology)
+  requires ClientOK(c)
   modifies everything, reqCount, lastReqWasPrimary
   loop 1 modifies everything, reqCount, lastReqWasPrimary
   loop 1 invariant c.topology != nil && TopoInv(c.topology)
@@ -170,20 +173,20 @@ func Backoff.Next
 
 func HTTPClient.Membership
   props C12
-  requires c.hasherF != nil && pure_fn(c.hasherF) && nonnil_fn(c.hasherF)
+  requires c.hasherF != nil && pure_fn(c.hasherF) && nonnil_fn(c.hasherF) && ClientOK(c)
   modifies everything, reqCount, lastReqWasPrimary
   ensures result_1 == nil ==> result_0 != nil
 
 func HTTPClient.MembershipDigest
   props C12
-  requires c.hasherF != nil && pure_fn(c.hasherF) && nonnil_fn(c.hasherF)
+  requires c.hasherF != nil && pure_fn(c.hasherF) && nonnil_fn(c.hasherF) && ClientOK(c)
   modifies everything, reqCount, lastReqWasPrimary
   ensures result_1 == nil ==> result_0 != nil && result_0.HyperProof != nil
   ensures result_1 == nil ==> len(result_0.HyperProof.Value) == int(hashlen_fn(c.hasherF))
 
 func HTTPClient.Incremental
   props C12
-  requires c.hasherF != nil && pure_fn(c.hasherF) && nonnil_fn(c.hasherF)
+  requires c.hasherF != nil && pure_fn(c.hasherF) && nonnil_fn(c.hasherF) && ClientOK(c)
   modifies everything, reqCount, lastReqWasPrimary
   ensures result_1 == nil ==> result_0 != nil && !isnil(result_0.Hasher)
 
@@ -204,7 +207,7 @@ func HTTPClient.MembershipVerify
 
 func HTTPClient.MembershipAutoVerify
   props C12
-  requires c.hasherF != nil && pure_fn(c.hasherF) && nonnil_fn(c.hasherF) && !isnil(c.log)
+  requires c.hasherF != nil && pure_fn(c.hasherF) && nonnil_fn(c.hasherF) && ClientOK(c) && !isnil(c.log)
   modifies everything, reqCount, lastReqWasPrimary
 
 func HTTPClient.IncrementalVerify
@@ -217,6 +220,6 @@ func HTTPClient.IncrementalVerify
 
 func HTTPClient.IncrementalAutoVerify
   props C12
-  requires c.hasherF != nil && pure_fn(c.hasherF) && nonnil_fn(c.hasherF) && !isnil(c.log)
+  requires c.hasherF != nil && pure_fn(c.hasherF) && nonnil_fn(c.hasherF) && ClientOK(c) && !isnil(c.log)
   modifies everything, verifyCalls, lastVerify, lastVerifyHistory, lastVerifyHyper, reqCount, lastReqWasPrimary
 @*/
